@@ -65,6 +65,15 @@ func BuildStaticWeightList(endpoints []endpoint.Endpoint) []int {
 		}
 	}
 
+	if maxWeight <= 0 {
+		// no endpoint has a positive static weight: there is nothing to scale,
+		// the selectors rotate over the plain endpoint list
+		return nil
+	}
+	if totalCapacity < 0 {
+		totalCapacity = 0
+	}
+
 	if minWeight > 0 {
 		maxRange = maxWeight / minWeight
 		if maxRange < minStaticWeightLimit {
